@@ -203,20 +203,35 @@ def policy_table(ctx):
               'clear does not null exactly the offending field')
     w = repo.func(SV + ':wrap_handler')
     inner = [f for f in repo.functions.values() if f.parent is w and not isinstance(f.node, ast.Lambda)]
-    tests = [n for n in own_nodes(w.node) if isinstance(n, ast.If)]
-    ok = len(tests) == 1 and len(inner) == 1 and len(inner[0].params) == 5
+    ok = len(inner) == 1 and len(inner[0].params) == 5
     if ok:
-        t_ = resolve_here(tests[0].test)
+        # decided on the paths through wrap_handler: what is returned where the handler has more than four parameters, and where not
+        from sa.pathvals import PathValues as _PVw
+        from sa.paths import Enumerator as _Enw
+        from sa.model import norm_compare as _ncw
         pats = ['len(list(signature(_h).parameters)) > 4', 'len(signature(_h).parameters) > 4',
                 'len(list(signature(_h).parameters)) >= 5', 'len(signature(_h).parameters) >= 5']
-        ok = any(match_expr(p_, t_, {'_h': w.params[0]}) is not None for p_ in pats)
+        seen_w = set()
+        for p_ in _Enw(where=w.qualname).paths(ctx.N(w).node.body):
+            if p_.term == 'raise':
+                continue
+            pv_ = _PVw(p_)
+            many = None
+            for t_, pol_ in pv_.guards:
+                t_, pol_ = _ncw(t_, pol_)
+                if any(match_expr(x_, t_, {'_h': w.params[0]}) is not None for x_ in pats):
+                    many = pol_
+                elif any(match_expr(x_.replace('> 4', '<= 4').replace('>= 5', '< 5'), t_, {'_h': w.params[0]}) is not None for x_ in pats):
+                    many = not pol_
+            if many is None or len(pv_.returns) != 1:
+                ok = False
+                continue
+            seen_w.add(many)
+            ok = ok and pseudo(pv_.returns[0]) == (w.params[0] if many else inner[0].name)
+        ok = ok and seen_w == {True, False}
         r = [n for n in own_nodes(inner[0].node) if isinstance(n, ast.Return)]
         ok = ok and len(r) == 1 and isinstance(r[0].value, ast.Call) and pseudo(r[0].value.func) == w.params[0] and \
             [pseudo(a) for a in r[0].value.args] == inner[0].params[:4]
-        rets_yes = [n for n in tests[0].body if isinstance(n, ast.Return)]
-        rets_no = [n for n in stmts_after(tests[0]) if isinstance(n, ast.Return)] + [n for n in tests[0].orelse if isinstance(n, ast.Return)]
-        ok = ok and len(rets_yes) == 1 and pseudo(rets_yes[0].value) == w.params[0] and len(rets_no) == 1 and \
-            pseudo(rets_no[0].value) == inner[0].name
     run.check(ok, 'POL', w.where, w.qualname, '5-parameter handlers passed through, shorter ones adapted in order',
               'custom handlers do not receive their arguments in the documented order')
 
@@ -478,9 +493,10 @@ def set_type_validate(ctx):
         if isinstance(rv_, ast.Name):
             inner_ = [f for f in repo.functions.values() if f.parent is rvm and not isinstance(f.node, ast.Lambda) and f.node.name == rv_.id]
             if len(inner_) == 1 and len(inner_[0].params) == 1:
-                body_ = [x for x in inner_[0].node.body if not (isinstance(x, ast.Expr) and isinstance(x.value, ast.Constant))]
-                if len(body_) == 1 and isinstance(body_[0], ast.Return) and body_[0].value is not None:
-                    lam = (inner_[0].params[0], body_[0].value)
+                from sa.pathvals import returned_values as _rvs
+                vals_ = _rvs(inner_[0].node, inner_[0].qualname)          # (temporaries read through)
+                if len(vals_) == 1:
+                    lam = (inner_[0].params[0], vals_[0])
         else:
             from rules import tables as _tables
             lam = _tables.as_lambda(ctx, rvm.module.name, rv_)
